@@ -1,5 +1,6 @@
 import PgFdr.Json
 import PgFdr.Model.C03
+import PgFdr.Model.C03Kinds
 namespace PgFdr.Driver
 open Lean PgFdr
 
@@ -18,6 +19,39 @@ def handleGroup (j : Json) : R Json := do
   | "pseudo_gene" => pure (obj [("groups", ofGroups (C03.pseudoGeneGrouping pil))])
   | _ => .error s!"unknown grouping mode {mode}"
 
+/-- the file argument: `null` (falsy), `"unreadable"` (no file at the path) or `{"header":[cell…],"rows":[[cell…]…]}` -/
+def jmqArg (j : Json) : R C03.MqArg :=
+  match j with
+  | .null => pure .absent
+  | .str "unreadable" => pure .unreadable
+  | _ => do
+    let h ← jstrs (← jget j "header")
+    let rows ← jlist jstrs (← jget j "rows")
+    pure (.table { header := h, rows := rows })
+
+/-- `{"op":"group_kind","kind":<factory name>,"pil":…,"mq":<file argument>}` or, for a method file,
+    `{"op":"group_kind","toml_grouping":<its grouping value>,"pseudo":bool,"pil":…,"mq":…}` →
+    the returned object `{"groups","valid","index"}` or `{"err":…}` -/
+def handleGroupKind (j : Json) : R Json := do
+  let pil ← jlist jpepinfo (← jget j "pil")
+  let mq ← match jgetOpt j "mq" with
+    | some v => jmqArg v
+    | none => pure C03.MqArg.absent
+  let kind ← match jgetOpt j "kind" with
+    | some k => do pure (C03.Kind.ofName (← jstr k))
+    | none => do
+      let g ← jstr (← jget j "toml_grouping")
+      let p ← jbool (← jget j "pseudo")
+      pure (C03.configured p g)
+  match kind with
+  | none => pure (ofErr "unknown_grouping")
+  | some k =>
+    match C03.groupProteinsObj k pil mq with
+    | .error e => pure (ofErr e)
+    | .ok pg =>
+      pure (obj [("groups", ofGroups pg.groups), ("valid", .bool pg.valid),
+                 ("index", PgFdr.ofList (fun (x : String × Nat) => Json.arr #[.str x.1, ofNat x.2]) (C20.indexItems pg))])
+
 /-- protocol handlers of property C03: (op name, handler) -/
-def handlersC03 : List (String × (Json → R Json)) := [("group", handleGroup)]
+def handlersC03 : List (String × (Json → R Json)) := [("group", handleGroup), ("group_kind", handleGroupKind)]
 end PgFdr.Driver
